@@ -79,6 +79,7 @@ func runC01(c *Cfg) {
 	r := c.Rep
 	runSpecial(c, "C01", "same-name-node-types")
 	runSpecial(c, "C01", "zero-value-node-lifecycle")
+	runSpecial(c, "C01", "half-retry-interface")
 	// 1. exhaustive standalone product
 	var cases []*scen.Scenario
 	var sigs []string
@@ -332,6 +333,7 @@ func runC02(c *Cfg) {
 	r := c.Rep
 	runSpecial(c, "C02", "same-name-node-types")
 	runSpecial(c, "C02", "rerun-after-stopped-concurrent-run")
+	runSpecial(c, "C02", "half-retry-interface")
 	runSpecial(c, "C02", "node-run-again-after-cancelled-run")
 	runSpecial(c, "C02", "fallback-set-twice")
 	var cases []*scen.Scenario
